@@ -300,7 +300,15 @@ def _flatcheck(ck, prog):
         ck.ob("TEMPLATE-flat", construct, False, expected="#{b : Hlocal[b]/mean(Hlocal) >= flatcrit}  (nan, hence not flat, while the local histogram is empty)",
               found=txt, slot="flatness-count", where=f.loc(fl[0]), note="the cross-multiplied test calls an empty histogram flat")
         return
-    ck.shape(lhs in ratio_forms or not lhs.startswith("Hlocal/"), "__run_flatcheck: bin count relative to a recognised mean form", f.loc(fl[0]))
+    if lhs.startswith("Hlocal/") and lhs not in ratio_forms:
+        # Hlocal / <mean of X>: which array is averaged?
+        import re as _re
+        mm = _re.fullmatch(r"Hlocal/(?:np\.mean\((\w+)\)|(\w+)\.mean\(\)|\((?:np\.)?sum\((\w+)\)/len\((\w+)\)\))", lhs)
+        ck.shape(mm is not None, "__run_flatcheck: bin count relative to a recognised mean form", f.loc(fl[0]))
+        arr = [g for g in mm.groups() if g]
+        ck.ob("TEMPLATE-flat", construct, set(arr) == {"Hlocal"}, expected="each local bin relative to the mean of the LOCAL histogram",
+              found=txt, slot="flatness-count", where=f.loc(fl[0]), note="dividing by the mean over all of [0,1] dilutes the criterion whenever the sampled window is a sub-range")
+        return
     ok = lhs in ratio_forms and op == "GtE" and rhs == "self.flatcrit"
     ck.ob("TEMPLATE-flat", construct, ok, expected="#{b : Hlocal[b]/mean(Hlocal) >= flatcrit}", found=txt, slot="flatness-count", where=f.loc(fl[0]))
     ev = Evaluator(prog, positive=())
